@@ -207,11 +207,13 @@ namespace TAO_PEGTL_NAMESPACE
                 typename... States >
       [[nodiscard]] static bool match( ParseInput& in, States&&... st )
       {
+         auto m = in.template auto_rewind< M >();
+         using m_t = decltype( m );
          std::size_t marker_size;
-         if( Control< internal::raw_string_open< Open, Marker > >::template match< A, M, Action, Control >( in, marker_size ) ) {
-            if( Control< content >::template match< A, M, Action, Control >( in, marker_size, st... ) ) {
+         if( Control< internal::raw_string_open< Open, Marker > >::template match< A, m_t::next_rewind_mode, Action, Control >( in, marker_size ) ) {
+            if( Control< content >::template match< A, m_t::next_rewind_mode, Action, Control >( in, marker_size, st... ) ) {
                in.bump_in_this_line( marker_size );
-               return true;
+               return m( true );
             }
          }
          return false;
